@@ -81,6 +81,7 @@ class Analysis:
         self.ctor_calls = []            # (line, class, {constructor parameter: abstract objects passed})
         self.mut = set()        # (root object, node lineno, construct, via)
         self.direct = set()     # parameters whose OWN top level is written (not merely something reachable from them)
+        self.deep = set()       # parameters through which something *below* their top level is written (an element, a nested dictionary)
         self.lost = []          # (lineno, construct)
         self.rowrite = []       # (lineno, construct, via)
         self.retobjs = set()
@@ -424,7 +425,8 @@ class Analysis:
         short = q.rsplit('.', 1)[-1]
         for p in s['mut']:
             if p in bind:
-                self.write(self.expand(bind[p]), n, via=f'{short}({p})', construct=f'{short}(... {p} ...)', direct_ok=p in s.get('direct', ()))
+                self.write(self.expand(bind[p]), n, via=f'{short}({p})', construct=f'{short}(... {p} ...)', direct_ok=p in s.get('direct', ()),
+                           nested=p in s.get('deep', ()))
         if fn.cls and params[:1] == ['self'] and 'self' in bind:
             for attr in s.get('selfmut', ()):
                 for b in bind['self']:
@@ -449,7 +451,7 @@ class Analysis:
         return out or {F}
 
     # ------------------------------------------------------------------ writes
-    def write(self, objs, node, via=None, construct=None, direct_ok=True, own=False):
+    def write(self, objs, node, via=None, construct=None, direct_ok=True, own=False, nested=False):
         """``own``: the write changes the object itself (d.pop(k), d[k] = v, del d[k], x += ..): a container display is then a fresh object of this
         function - its elements are not written; without it (a callee that may reach into its argument) the elements of a display count as written"""
         construct = construct or _norm(node)
@@ -463,6 +465,10 @@ class Analysis:
             if x[0] == 'Tmp' and via is None:
                 self.lost.append((node.lineno, construct))
             w = writes_through(x)
+            if w is None and nested and x[0] == 'Sh' and root(x)[0] in ('P', 'Self', 'G'):
+                w = root(x)         # the callee writes below the top level of what it is given: a shallow copy shares everything below its top level with the original
+            if w and w[0] == 'P' and (nested or x[0] in ('Sub', 'V')):
+                self.deep.add(w[1])
             if w:
                 self.mut.add((w, node.lineno, construct, via))
 
@@ -653,7 +659,7 @@ def _norm_target(t):
 
 
 def summarise(model, ro_armed=True, max_rounds=8):
-    summ = {q: {'mut': set(), 'ret': {F}, 'selfmut': set(), 'direct': set()} for q in model.funcs}
+    summ = {q: {'mut': set(), 'ret': {F}, 'selfmut': set(), 'direct': set(), 'deep': set()} for q in model.funcs}
     details = {}
     rounds = 0
     for rounds in range(1, max_rounds + 1):
@@ -668,7 +674,7 @@ def summarise(model, ro_armed=True, max_rounds=8):
                     ret.add(r)
                 else:
                     ret.add(F)
-            new = {'mut': mut, 'ret': ret or {F}, 'selfmut': selfmut, 'direct': set(a.direct) & mut}
+            new = {'mut': mut, 'ret': ret or {F}, 'selfmut': selfmut, 'direct': set(a.direct) & mut, 'deep': set(a.deep) & mut}
             if new != summ[q]:
                 summ[q] = new
                 changed = True
